@@ -23,7 +23,7 @@ type thr struct {
 	id      int
 	goid    int64
 	resume  chan struct{}
-	ops     []opT
+	jobs    []job
 	results []opRes
 	opIdx   int // operation in progress (or next to start)
 	inOp    bool
@@ -36,6 +36,13 @@ type thr struct {
 	// the current Load returned-not-found candidates: did another goroutine instantiate the same file meanwhile?
 	overlapped map[int]bool // op index -> overlapped an instantiation of the same (loader, name) by another goroutine
 	steps      int
+	doneAt     []int
+}
+
+// job is one operation of a thread
+type job struct {
+	name string
+	run  func(c px.Context) opRes
 }
 
 type report struct {
@@ -103,6 +110,7 @@ type runResult struct {
 	Overlap  []map[int]bool
 	World    *world
 	Counts   map[string]int
+	DoneAt   [][]int // DoneAt[t][i]: the schedule step at which operation i of thread t returned
 }
 
 // policy picks the thread to run at step i among the enabled ones (never empty); it may also pick a thread that is
@@ -122,12 +130,52 @@ const maxSteps = 400
 
 func runSchedule(cfg []ldefT, prog [][]opT, pick policy) *runResult {
 	w := newWorld(cfg)
-	rr := &runResult{World: w}
-	ths := make([]*thr, len(prog))
-	for i, ops := range prog {
-		t := &thr{id: i, resume: make(chan struct{}), ops: ops, overlapped: map[int]bool{}}
+	jobs := make([][]job, len(prog))
+	for t, ops := range prog {
+		for _, o := range ops {
+			o := o
+			jobs[t] = append(jobs[t], job{o.String(), func(c px.Context) opRes { return w.apply(c, o) }})
+		}
+	}
+	fl := func(t *thr, idx int) (int, int) { // the (file loader, name) that operation idx of t can instantiate
+		if idx >= len(prog[t.id]) || prog[t.id][idx].Kind != "Load" {
+			return -1, -1
+		}
+		o := prog[t.id][idx]
+		return w.fileLevel(o.L, o.N), o.N
+	}
+	// bookkeeping for the known-finding matcher: which operations ran (a segment) while another goroutine was
+	// instantiating the same (loader, name)
+	before := func(t *thr, ths []*thr) {
+		idx := len(t.results)
+		d, n := fl(t, idx)
+		if d < 0 {
+			return
+		}
+		for _, b := range ths {
+			if b != t && b.inInst {
+				if bd, bn := fl(b, len(b.results)); bd == d && bn == n {
+					t.overlapped[idx] = true
+				}
+			}
+		}
+	}
+	rr := runJobs(jobs, pick, before)
+	rr.World = w
+	if !rr.Deadlock && rr.Hang == "" {
+		w.resolve(rr.Results)
+	}
+	rr.Counts = w.parseCounts()
+	return rr
+}
+
+func runJobs(jobs [][]job, pick policy, before func(t *thr, ths []*thr)) *runResult {
+	rr := &runResult{}
+	ths := make([]*thr, len(jobs))
+	for i, js := range jobs {
+		t := &thr{id: i, resume: make(chan struct{}), jobs: js, overlapped: map[int]bool{}}
 		ths[i] = t
-		if len(ops) == 0 {
+		if len(js) == 0 {
 			t.done = true
 			continue
 		}
@@ -144,13 +192,13 @@ func runSchedule(cfg []ldefT, prog [][]opT, pick policy) *runResult {
 			}()
 			c := pcore.NewContext(px.StaticLoader(), pcore.Logger())
 			close(started)
-			for i, o := range t.ops {
+			for i, j := range t.jobs {
 				<-t.resume
 				t.opIdx, t.inOp = i, true
-				r := w.apply(c, o)
+				r := j.run(c)
 				t.results = append(t.results, r)
 				t.inOp = false
-				if i == len(t.ops)-1 {
+				if i == len(t.jobs)-1 {
 					t.done = true
 				}
 				reports <- report{t, 1}
@@ -169,13 +217,6 @@ func runSchedule(cfg []ldefT, prog [][]opT, pick policy) *runResult {
 			t.mu.Unlock()
 		}
 		return true
-	}
-	fl := func(t *thr) (int, int) { // the (file loader, name) that the operation in progress of t can instantiate
-		if !t.inOp || t.ops[t.opIdx].Kind != "Load" {
-			return -1, -1
-		}
-		o := t.ops[t.opIdx]
-		return w.fileLevel(o.L, o.N), o.N
 	}
 	for step := 0; ; step++ {
 		var enabled []int
@@ -207,31 +248,22 @@ func runSchedule(cfg []ldefT, prog [][]opT, pick policy) *runResult {
 		}
 		t := ths[k]
 		t.steps++
+		if before != nil {
+			before(t, ths)
+		}
 		t.resume <- struct{}{}
 		select {
 		case rep := <-reports:
 			if rep.t != t {
 				rr.Hang = fmt.Sprintf("goroutine %d reported while goroutine %d was scheduled", rep.t.id, t.id)
+			} else if rep.kind == 1 {
+				t.doneAt = append(t.doneAt, step)
 			}
 		case <-time.After(10 * time.Second):
-			rr.Hang = fmt.Sprintf("goroutine %d did not reach a yield point within 10s (operation %s)", t.id, t.ops[t.opIdx])
+			rr.Hang = fmt.Sprintf("goroutine %d did not reach a yield point within 10s (operation %s)", t.id, t.jobs[t.opIdx].name)
 		}
 		if rr.Hang != "" {
 			break
-		}
-		// bookkeeping for the known-finding matcher: which operations overlapped an instantiation by someone else
-		for _, a := range ths {
-			ad, an := fl(a)
-			if ad < 0 {
-				continue
-			}
-			for _, b := range ths {
-				if b != a && b.inInst {
-					if bd, bn := fl(b); bd == ad && bn == an {
-						a.overlapped[a.opIdx] = true
-					}
-				}
-			}
 		}
 	}
 	rr.Steps = len(rr.Sched)
@@ -239,10 +271,7 @@ func runSchedule(cfg []ldefT, prog [][]opT, pick policy) *runResult {
 		rr.Results = append(rr.Results, t.results)
 		rr.Parses = append(rr.Parses, t.parses)
 		rr.Overlap = append(rr.Overlap, t.overlapped)
+		rr.DoneAt = append(rr.DoneAt, t.doneAt)
 	}
-	if !rr.Deadlock && rr.Hang == "" {
-		w.resolve(rr.Results)
-	}
-	rr.Counts = w.parseCounts()
 	return rr
 }
